@@ -6,6 +6,8 @@
    Statements only; proofs in Facts/SelfCheck.v (corollaries of the C06/C10/C12/C13/C14 theorems). *)
 From Coq Require Import Reals List Lra.
 Import ListNotations.
+From Coq Require Import QArith Qreduction.
+From SL Require Import Model.InstQ.
 From SL Require Import Model.Num Model.Vec Model.Mul Model.Bi Model.InstR Facts.RBase Facts.Discount
      Facts.BiDeduce Facts.SelfCheck.
 Open Scope R_scope.
@@ -82,6 +84,22 @@ Theorem product3_never_fails : forall eps, 0 <= eps <= 1/8 -> forall b0 u0 a0 b1
                 = Some (map Some b, Some u, map Some a) /\ wf_opinion b u a.
 Proof. exact SelfCheck.product3_never_fails. Qed.
 Print Assumptions product3_never_fails.
+
+(* The hypothesis "exactly well-formed" cannot be weakened to "accepted by the checked constructors": operands
+   whose masses sum to 1 + 4 eps are accepted, and for dogmatic factors the exact product then has the uncertainty
+   -(b/a)(delta_0 + delta_1) < -eps, which the product's own validation rejects.  Witness on the executable
+   rational instance with eps = 2^-52: both factors pass check_simplex / check_base_rate, their product is None.
+   (Such a failure is legitimate in the sense of the property: the mathematically exact result is ill-formed.) *)
+Theorem product2_of_tolerated_operands_refuted :
+  let eps : Q := (1 # 4503599627370496)%Q in
+  let d : Q := Qred (2 * eps)%Q in
+  let b0 := [Some (Qred ((1 # 2) + d)%Q); Some (Qred ((1 # 2) + d)%Q)] in
+  let a0 := [Some (1 # 8)%Q; Some (7 # 8)%Q] in
+  (check_simplex (B:=FldQ) eps b0 (Some 0%Q) = true) /\
+  (check_base_rate (B:=FldQ) eps a0 = true) /\
+  (product2 (B:=FldQ) eps (b0, Some 0%Q, a0) (b0, Some 0%Q, a0) = None).
+Proof. vm_compute. repeat split; reflexivity. Qed.
+Print Assumptions product2_of_tolerated_operands_refuted.
 
 Example c19_nonvacuous :
   wf_bop (1/1000) (2/1000) (997/1000) (1/4) /\ wf_bop (3/1000) (1/1000) (996/1000) (5/8) /\
